@@ -338,7 +338,9 @@ func aggregateRows(selectList sql.SelectList, groupBy []sql.ColumnReference, row
 		var key string
 		for _, idx := range groupByIdx {
 			// length-prefixed so that (1, 23) and (12, 3) get different keys
-			val := fmt.Sprintf("%v", row.Vals[idx])
+			// (with the value's type, so that NULL and the text '<nil>', or 1
+			// and '1', stay apart)
+			val := fmt.Sprintf("%T:%v", row.Vals[idx], row.Vals[idx])
 			key += fmt.Sprintf("%d:%s|", len(val), val)
 		}
 		return key
